@@ -675,6 +675,14 @@ const ONEARG_ERRORS: &[&str] = &[
 ];
 
 pub fn suite_render(out: &mut Out, tier: &str, rng: &mut Rng) {
+    // Display under width / alignment / alternate flags, every AVP-naming variant over every assigned type and some others
+    for style in ["wide", "left", "alt"] {
+        for v in ["IncompleteAVP", "InvalidUtf8", "AVPReadError"] {
+            for t in (0u32..=41).chain([255, 256, 65535]) {
+                out.emit(json!({"op": "render", "v": {"v": v, "a": [t]}, "style": style}));
+            }
+        }
+    }
     for v in NOARG_ERRORS {
         out.emit(json!({"op": "render", "v": {"v": v, "a": []}}));
     }
@@ -1156,6 +1164,63 @@ pub fn suite_fault(out: &mut Out, tier: &str, rng: &mut Rng) {
             emit(out, ctl(&mk(&text), i), ctl(&mk(&badtext), i), "InvalidUtf8", t as u32, &strict);
         }
     }
+    // the same kinds of fault at other places and under other circumstances: 0..5 valid AVPs before and 0..3
+    // after the faulty one, the faulty record's M bit clear or reserved bits set (both ignored by the layout),
+    // special header ids, every message type in front
+    for rep in 0..counts(tier, 120, 4000) {
+        let pre = (rep % 6) as usize;
+        let post = ((rep / 6) % 4) as usize;
+        let f6 = *rng.pick(&[1u8, 0, 0x3d, 0x3c, 0x21]);
+        let ids: [u16; 4] = match rep % 5 { 0 => [0, 0, 0, 0], 1 => [7, 7, 7, 7], 2 => [0, 9, 5, 5], _ => [rng.u16(), rng.u16(), rng.u16(), rng.u16()] };
+        let mt = enc_avp(&json!({"k": "MessageType", "f": [MSG_TYPES[(rep as usize) % MSG_TYPES.len()].1]}));
+        let before: Vec<u8> = (0..pre).flat_map(|_| enc_avp(&gen_avp(rng, 8))).collect();
+        let after: Vec<u8> = (0..post).flat_map(|_| enc_avp(&gen_avp(rng, 8))).collect();
+        let build = |rec: &[u8]| {
+            let mut b = mt.clone();
+            b.extend_from_slice(&before);
+            b.extend_from_slice(rec);
+            b.extend_from_slice(&after);
+            enc_control_raw(flag_word(true, true, true, false, false, 2), None, ids, &b)
+        };
+        match rep % 5 {
+            0 => {
+                let t = *rng.pick(&[20u16, 40, 41, 100, 255, 256, 4096, 65535]);
+                let p = rng.rbytes(1, 300);
+                emit(out, build(&enc_record(f6, 6 + p.len(), 0, 7, &p)), build(&enc_record(f6, 6 + p.len(), 0, t, &p)), "UnknownAvp", t as u32, &strict);
+            }
+            1 => {
+                let v = rng.range(1, 65535) as u16;
+                let a = gen_avp(rng, 200);
+                let p = enc_payload(&a);
+                let h = if a["k"] == "Hidden" { 2 } else { 0 };
+                emit(out, build(&enc_record(f6 | h, 6 + p.len(), 0, avp_type(&a), &p)), build(&enc_record(f6 | h, 6 + p.len(), v, avp_type(&a), &p)),
+                     "UnsupportedVendorId", v as u32, &strict);
+            }
+            2 => {
+                let ki = rng.below(KINDS.len() as u64) as usize;
+                let (t, _, prog) = &KINDS[ki];
+                let m = min_len(prog);
+                if m > 0 {
+                    let good = enc_payload(&gen_avp_kind(rng, ki, 8));
+                    let cut = rng.below(m as u64) as usize;
+                    emit(out, build(&enc_record(f6, 6 + good.len(), 0, *t, &good)), build(&enc_record(f6, 6 + cut, 0, *t, &good[..cut])), "IncompleteAVP", *t as u32, &strict);
+                }
+            }
+            3 => {
+                let t = *rng.pick(&[8u16, 21, 22, 23]);
+                let n = rng.range(1, 200) as usize;
+                let text = gen_utf8(rng, n);
+                let mut bad = text.clone();
+                let at = rng.below(bad.len() as u64) as usize;
+                bad[at] = 0xff;
+                emit(out, build(&enc_record(f6, 6 + text.len(), 0, t, &text)), build(&enc_record(f6, 6 + bad.len(), 0, t, &bad)), "InvalidUtf8", t as u32, &strict);
+            }
+            _ => {
+                let c = *rng.pick(&[0u16, 5, 13, 17, 255, 256, 65535]);
+                emit(out, build(&enc_record(f6, 8, 0, 0, &6u16.to_be_bytes())), build(&enc_record(f6, 8, 0, 0, &c.to_be_bytes())), "UnknownMessageType", c as u32, &strict);
+            }
+        }
+    }
 }
 
 /// C20, exhaustive over 16-bit offending values: vendor ids, unknown attribute types, unassigned message-type
@@ -1304,6 +1369,30 @@ pub fn suite_ignored(out: &mut Out, tier: &str, rng: &mut Rng) {
 
 /// C11: revealing a non-hidden AVP returns it unchanged
 pub fn suite_reveal_plain(out: &mut Out, tier: &str, rng: &mut Rng) {
+    // crafted plaintexts: a valid value of every kind followed by padding of several contents and lengths
+    // (up to three whole blocks of padding)
+    for ki in 0..KINDS.len() {
+        for (pi, pad) in [0usize, 1, 15, 16, 17, 33, 48].iter().enumerate() {
+            if tier != "thorough" && (ki + pi) % 3 != 0 {
+                continue;
+            }
+            let a = gen_avp_kind(rng, ki, 10);
+            let p = enc_payload(&a);
+            let mut plain = ((6 + p.len()) as u16).to_be_bytes().to_vec();
+            plain.extend_from_slice(&p);
+            let fill: Vec<u8> = match (ki + pi) % 4 {
+                0 => vec![0u8; *pad],
+                1 => vec![0xffu8; *pad],
+                2 => enc_avp(&gen_avp(rng, 40)).into_iter().cycle().take(*pad).collect(),
+                _ => rng.bytes(*pad),
+            };
+            plain.extend_from_slice(&fill);
+            while plain.len() % 16 != 0 {
+                plain.push(if pi % 2 == 0 { 0 } else { 0xa5 });
+            }
+            out.emit(json!({"op": "reveal", "t": KINDS[ki].0, "plain": bytes_json(&plain), "secret": bytes_json(&rng.rbytes(0, 20)), "rv": bytes_json(&rng.bytes(4))}));
+        }
+    }
     for ki in 0..KINDS.len() {
         for _ in 0..counts(tier, 1, 10) {
             out.emit(json!({"op": "reveal", "v": gen_avp_kind(rng, ki, 30), "secret": bytes_json(&rng.rbytes(0, 20)),
@@ -2247,6 +2336,47 @@ pub fn suite_value_products(out: &mut Out, tier: &str, rng: &mut Rng) {
                                "tunnel_id": if rel % 2 == 0 { a } else { b }, "session_id": b, "ns_nr": [[a, b]], "offset": [], "data": bytes_json(&data)});
                 out.emit(json!({"op": "roundtrip", "kind": "msg", "v": d}));
             }
+        }
+    }
+    // 32-bit quantities as real peers send them, alone and in related pairs (min > max, Tx < Rx, equal)
+    let nice: [u32; 22] = [0, 1, 300, 1200, 2400, 9600, 14400, 28800, 33600, 56000, 64000, 115200, 128000, 1544000, 2048000, 10_000_000,
+                           100_000_000, 1_000_000_000, 0x7fff_ffff, 0x8000_0000, 0xffff_fffe, 0xffff_ffff];
+    for (i, &x) in nice.iter().enumerate() {
+        for k in ["MinimumBps", "MaximumBps", "TxConnectSpeed", "RxConnectSpeed", "CallSerialNumber", "PhysicalChannelId"] {
+            n += 1;
+            emit_avp(out, json!({"k": k, "f": [bytes_json(&x.to_be_bytes())]}), n, rng);
+        }
+        for &y in [nice[(i + 1) % nice.len()], x, nice[(i + 7) % nice.len()]].iter() {
+            for (mt, ka, kb) in [("OutgoingCallRequest", "MinimumBps", "MaximumBps"), ("IncomingCallConnected", "TxConnectSpeed", "RxConnectSpeed"),
+                                 ("OutgoingCallConnected", "RxConnectSpeed", "TxConnectSpeed")] {
+                let m = ctl_of(vec![json!({"k": "MessageType", "f": [mt]}), json!({"k": ka, "f": [bytes_json(&x.to_be_bytes())]}),
+                                    json!({"k": "FramingType", "f": [[0, 0, 0, 0x40]]}), json!({"k": kb, "f": [bytes_json(&y.to_be_bytes())]})], [1, 2, 3, 4]);
+                out.emit(json!({"op": "roundtrip", "kind": "msg", "v": m}));
+                out.emit(json!({"op": "chain", "in": bytes_json(&enc_control(&m)), "opts": [true, true, true]}));
+            }
+        }
+    }
+    // three AVPs in every order of a random triple of kinds; message sizes of 0..=70 AVPs
+    for _ in 0..counts(tier, 150, 6000) {
+        let ks = [rng.below(KINDS.len() as u64 + 1) as usize, rng.below(KINDS.len() as u64 + 1) as usize, rng.below(KINDS.len() as u64 + 1) as usize];
+        let vals: Vec<Value> = ks.iter().map(|&k| if k < KINDS.len() { gen_avp_kind(rng, k, 6) } else { gen_hidden(rng, 16) }).collect();
+        for perm in [[0usize, 1, 2], [0, 2, 1], [1, 0, 2], [1, 2, 0], [2, 0, 1], [2, 1, 0]] {
+            let m = ctl_of(vec![gen_message_type(rng), vals[perm[0]].clone(), vals[perm[1]].clone(), vals[perm[2]].clone()], [rng.u16(), rng.u16(), 0, 0]);
+            out.emit(json!({"op": "roundtrip", "kind": "msg", "v": m}));
+        }
+    }
+    for count in 0..=70usize {
+        let mut avps = vec![];
+        if count > 0 {
+            avps.push(gen_message_type(rng));
+        }
+        for _ in 1..count {
+            avps.push(gen_avp(rng, 5));
+        }
+        let m = ctl_of(avps, [1, 2, 3, 4]);
+        out.emit(json!({"op": "roundtrip", "kind": "msg", "v": m}));
+        if count % 3 == 0 {
+            out.emit(json!({"op": "chain", "in": bytes_json(&enc_control(&m)), "opts": [true, true, true]}));
         }
     }
     // Call Errors / ACCM with equal, zero and all-ones counters
